@@ -67,6 +67,7 @@ def run(ctx: Context) -> None:
     if ck.rule("C19.G1", "wake-up is guarded and complete"):
         for finder, handler in PAIRS:
             _g1(ctx, handler, prof)
+            _g1_cleanup(ctx, finder, tables.get(finder, set()) or {"_waiters", "_ble_futures"})
     if ck.rule("C19.G2", "timeouts and the aggregate finder"):
         _g2(ctx)
     if ck.rule("C19.X1", "scanner / browser callbacks let no Exception escape"):
@@ -188,7 +189,7 @@ def _profile(ctx: Context) -> PartialProfile:
     roots = [f"{BC}._device_detected", f"{ZC}._async_handle_loaded_service_info"]
     scope = {}
     for q in sync_closure(ctx, roots):
-        ops = {"optional_attr": True, "future_set": True}
+        ops = {"optional_attr": True, "future_set": True, "optional_compare": True}
         if q.startswith(MD) or q == f"{BC}._device_detected":
             ops["index"] = _wire_vars(ctx, q)
         if q.endswith("HomeKitService.from_service_info"):
@@ -285,6 +286,49 @@ def _g1(ctx: Context, handler: str, prof: PartialProfile) -> None:
             f"{ctx.fkey(f)}:entry-not-removed",
             f"{short}: completed waiters stay listed in the table",
             ctx.loc(f, loop),
+        )
+
+
+def _g1_cleanup(ctx: Context, finder: str, tables: set[str]) -> None:
+    """async_find's own clean-up may drop the table entry of the id only when no waiter is left in it:
+    removing the whole entry while other callers wait for the same id unregisters them (they can only time out)."""
+    ck = ctx.ck
+    f = ctx.func(finder)
+    cfg = ctx.cfg(finder)
+    T = ctx.terms
+    short = finder.split(".")[-2] + ".async_find"
+    removals = []
+    for n in cfg.nodes:
+        for c in ctx.calls(n):
+            if isinstance(c.func, ast.Attribute) and c.func.attr in ("pop", "clear", "popitem") and isinstance(c.func.value, ast.Attribute) and dotted(c.func.value) and dotted(c.func.value).split(".", 1)[-1] in tables and dotted(c.func.value).startswith("self."):
+                removals.append(n)
+        if n.kind == "stmt" and isinstance(n.ast, ast.Delete):
+            for t in n.ast.targets:
+                if isinstance(t, ast.Subscript) and dotted(t.value) and dotted(t.value).startswith("self.") and dotted(t.value).split(".", 1)[-1] in tables:
+                    removals.append(n)
+    for rn in {r.id: r for r in removals}.values():
+        gate = []
+        for m in cfg.nodes:
+            if m.kind != "test":
+                continue
+            t = strip_sites(T.of(cfg, m, m.exprs[0]))
+            # truthiness of the entry (self.T[id] / the list obtained from the table): empty on the false outcome
+            inner = t
+            if inner[0] == "sub" and inner[1][0] == "attr" and inner[1][1] == ("param", "self") and inner[1][2] in tables:
+                gate += cfg.out_edges(m, ("F",))
+            elif inner[0] == "call" and inner[1][0] == "attr" and inner[1][2] in ("get", "setdefault") and inner[1][1][0] == "attr" and inner[1][1][2] in tables:
+                gate += cfg.out_edges(m, ("F",))
+            elif inner[0] == "cmp" and inner[1] == ("Eq",) and inner[2][1] == ("const", 0) and inner[2][0][0] == "call" and inner[2][0][1] == ("glob", "len"):
+                gate += cfg.out_edges(m, ("T",))
+        p = cfg.find_path(cfg.entry.id, rn.id, avoid_edges=gate)
+        ck.check(
+            "C19.G1",
+            p is None,
+            f"{short}: its clean-up drops the table entry only when no waiter is left in it",
+            f"{ctx.fkey(f)}:cleanup-removes-siblings",
+            f"{short}: `{rn.text()[:70]}` removes the whole waiter entry of the id without checking that it is empty: when one caller gives up "
+            "(timeout/cancel) every other caller waiting for the same id is unregistered and can no longer be woken",
+            ctx.loc(f, rn),
         )
 
 
